@@ -50,8 +50,9 @@ def _gen_key(kind, tier, *parts):
     the specification, the generation parameters and the seed only, never on the repository under test."""
     import hashlib
     h = hashlib.sha256()
-    for f in sorted(glob.glob(os.path.join(SPEC_DIR, "*.tla"))):
-        h.update(open(f, "rb").read())
+    top = {"mc": "MC_TMClient", "walks": "Sched_TMClient", "cases": "Cases_TMClient"}[kind]
+    for m in ("TMClient", "TMActions", top):
+        h.update(open(os.path.join(SPEC_DIR, m + ".tla"), "rb").read())
     cfg = {"std": STD, "levels": LEVELS, "high": HIGH_LEVEL, "sizes": sizes(tier), "diffs": WALK_DIFFS,
            "mc": {k: {a: (sorted(b) if isinstance(b, set) else b) for a, b in v.items()} for k, v in mc_configs(tier).items()}}
     h.update(json.dumps(cfg, sort_keys=True).encode())
@@ -117,7 +118,7 @@ MC_WITNESS = {
 def sizes(tier):
     if tier == "quick":
         return dict(walks=10, depth=36, K=1, shards=8, walk_cfgs=4)
-    return dict(walks=70, depth=60, K=2, shards=14, walk_cfgs=10)
+    return dict(walks=40, depth=60, K=2, shards=14, walk_cfgs=10)
 
 
 def run_mc(tier, result, errors):
@@ -211,7 +212,7 @@ def gen_cases(tier, workdir):
         cfg = os.path.join(d, "Cases_%d%d.cfg" % (ln, ld))
         vk.write_cfg(cfg, "Spec", dict(STD, NH=8, MaxT=200, LN=ln, LD=ld, OutDir=outdir, K=1 if probe else sz["K"]))
         r = vk.tlc_mc(d, "Cases_TMClient", cfg, workers=1, timeout=900)
-        kinds = ("hdr", "misb", "rec", "upg") if n == 0 else ("hdr",)
+        kinds = ("hdr", "gap", "misb", "rec", "upg") if n == 0 else ("hdr",)
         for m in re.finditer(r'<<"CASES", "(\w+)", (\d+), (\d+)>>', r["out"]):
             if m.group(1) in kinds:
                 counts["%s-%d%d" % (m.group(1), ln, ld)] = {"cases": int(m.group(2)), "accepted_by_spec": int(m.group(3))}
@@ -366,7 +367,8 @@ def props_of_action(name):
 FLOORS = {
     "C20": ["Update.dup:ok", "Update.freeze-conflict:ok", "Misb.freeze:ok", "Update.prune:ok", "Update.gapfill:ok", "Update.store:ok"],
     "C22": ["Update.store:ok", "Update.gapfill:ok", "Update.prune:ok", "Recover.frozen:ok", "Upgrade.done:ok", "Update.rev1:ok"],
-    "C23": ["Update.freeze-time:ok", "Update.gapfill:ok", "Update.store:ok"],
+    "C23": ["walk:Update.freeze-time:ok", "Update.gapfill:ok", "Update.store:ok", "gap:Update.freeze-time:ok", "gap:Update.gapfill:ok",
+            "gap:Update.rejected:err"],
     "C24": ["hdr:Update.store:ok", "hdr:Update.rejected:err", "misb:Misb.freeze:ok", "misb:Misb.noconflict:ok", "misb:Misb.rejected:err",
             "walk:Update.rejected:err"],
     "C25": ["Recover.frozen:ok", "Recover.expired:ok", "Recover.rejected:err", "Recover.rejected:panic", "Upgrade.done:ok",
